@@ -1,11 +1,5 @@
-mod common;
-mod engines;
-mod evmfix;
-mod evmref;
-mod simvm;
-mod world;
-
-use common::*;
+use verif_harness::common::*;
+use verif_harness::{common, engines};
 
 fn main() {
     let h = std::thread::Builder::new().stack_size(1 << 30).spawn(real_main).unwrap();
@@ -73,11 +67,11 @@ fn real_main() -> i32 {
         "C08" => run_engine(&engines::market::engines::C08, &opts),
         "C18" => run_engine(&engines::c18_evm_total::C18, &opts),
         "SYS" => run_engine(&engines::sys::SysEngine { id: "SYS" }, &opts),
-        "C01" => run_engine(&engines::sys::SysEngine { id: "C01" }, &opts),
+        "C01" => run_engine(&engines::composite::Composite { id: "C01" }, &opts),
         "C02" => run_engine(&engines::sys::SysEngine { id: "C02" }, &opts),
         "C03" => run_engine(&engines::sys::SysEngine { id: "C03" }, &opts),
         "C04" => run_engine(&engines::sys::SysEngine { id: "C04" }, &opts),
-        "C05" => run_engine(&engines::sys::SysEngine { id: "C05" }, &opts),
+        "C05" => run_engine(&engines::composite::Composite { id: "C05" }, &opts),
         "C20" => run_engine(&engines::c20_identity::C20, &opts),
         "C19" => run_engine(&engines::evmsys::C19, &opts),
         "C17" => run_engine(&engines::c17_evm_diff::C17, &opts),
@@ -104,7 +98,7 @@ pub fn bench() {
     println!("cron over 600k epochs: {:?} ok={}", t.elapsed(), r.ok());
     // system tick cost: one cron-active miner with a sector
     let case = engines::sys::ops::SysCase { n_miners: 1, proofs: vec![0], min_power: 1, poor_reward: false, whale: false, funding: vec![], ops: vec![engines::sys::ops::Op::Onboard { m: 0, n: 2, life_days: 0 }] };
-    let mut stats = crate::common::CaseStats::default();
+    let mut stats = common::CaseStats::default();
     stats.known_sigs = std::sync::Arc::new(["vesting-funds-without-deadline-cron", "create-miner-deposit-missing-from-pledge-total"].iter().map(|s| s.to_string()).collect());
     let mut s = engines::sys::ops::Sys::new(&case, &mut stats, &std::env::var("BENCH_FOCUS").unwrap_or("C05".into())).unwrap();
     s.cushion(false).unwrap();
